@@ -87,7 +87,7 @@ claim("C15",
       "ContainsTime is compared with the documented meaning for every accepted interval specification (up to 1-2 ranges per field, each field possibly absent, symbolic bounds) and for every "
       "minute of the years 1970..2099: the instant is an abstract Gregorian date-time whose components are symbolic and tied together exactly (month lengths, leap years, weekday, Unix seconds). "
       "The mute/active stages are run with the real Intervener at an arbitrary tick.",
-      "Bounds: 1 range per field (quick) / 2 (thorough), years 1970..2099 (the century leap exceptions are outside); interval location absent or any fixed offset within +-14h (zone databases with transitions, DST, are outside). Go's calendar arithmetic is trusted; "
+      "Bounds: 1 range per field (quick) / 2 (thorough), years 1970..2099 (the century leap exceptions are outside); interval location absent, any fixed offset within +-14h, or a zone with one transition (spring-forward / fall-back at a fixed instant of 2024, instants of that year); the tz database itself is outside. Go's calendar arithmetic is trusted; "
       "the engine's calendar model is cross-checked natively on every sampled path. The HH:MM and name parsers and YAML are outside. " + TRUSTED, "4 C15")
 claim("C16",
       "The UTF-8 matcher lexer/parser is executed on an arbitrary buffer of up to 4 (quick) / 6 (thorough) symbolic bytes: no panic, termination within the unwinding bound; printing a matcher "
